@@ -831,7 +831,12 @@ class FortranCodegen(Stringifier):
         """
         if o.inline:
             cond = self.visit(o.conditions[0], **kwargs)
-            assignment = self.visit(o.bodies[0][0], **kwargs).strip()
+            d = self.depth
+            self.depth = 0
+            assignment = self.visit(o.bodies[0][0], **kwargs)
+            self.depth = d
+            # Undo the line wrapping, so that we may re-format and re-indent
+            assignment = ''.join(assignment.strip().split('&\n&'))
             return self.format_line('WHERE (', cond, ') ', assignment)
 
         cases = [self.format_line('WHERE (', self.visit(o.conditions[0], **kwargs), ')')]
